@@ -1,5 +1,6 @@
 """C14 - exception-based filtering drops exactly the failing examples."""
 import random
+import common
 import warnings
 import oracles
 import piperun
@@ -138,8 +139,72 @@ def lookup_error_cases(rep, n_cases):
     return bad
 
 
+def epoch_cases(rep, n_cases):
+    """ONE catch / filter object iterated for several epochs: every epoch drops exactly the examples that fail
+    in THAT epoch, whatever failed before - (a) over a per-epoch reshuffle, where positions change their
+    example, (b) with a failing set that changes from epoch to epoch (transient errors)"""
+    import numpy as np
+    rng = random.Random(rep.seed * 3 + 1414)
+    bad = []
+    for _ in range(n_cases):
+        common.gc_point()
+        n = rng.randint(1, 9)
+        keyed = rng.random() < 0.6
+        src = {f'k{i}': i for i in range(n)} if keyed else list(range(n))
+        mode = rng.choice(['reshuffle', 'transient', 'transient'])
+        seed = rng.randrange(1 << 30)
+        fixed_bad = set(rng.sample(range(n), rng.randint(0, n)))
+        per_epoch = [set(rng.sample(range(n), rng.randint(0, n))) for _ in range(4)]
+        now = {'bad': fixed_bad}
+        cls = rng.choice([lazy_dataset.FilterException, ValueError])
+
+        def f(x):
+            if x in now['bad']:
+                raise cls(x)
+            return x
+
+        def keep(x):
+            return x not in now['bad']
+        with warnings.catch_warnings():
+            warnings.simplefilter('ignore')
+            def base():
+                d = lazy_dataset.new(src)
+                return d.shuffle(reshuffle=True, rng=np.random.RandomState(seed)) if mode == 'reshuffle' else d
+            stages = {
+                'catch': lambda: base().map(f).catch(cls),
+                'catch_map': lambda: base().map(f).catch(cls).map(lambda x: x),
+                'lazy_filter': lambda: base().filter(keep),
+                'prefetch1_catch': lambda: base().map(f).prefetch(1, 2, catch_filter_exception=cls),
+            }
+            name = rng.choice(sorted(stages))
+            ds, twin = stages[name](), base()
+            items_view = keyed and name in ('catch', 'lazy_filter') and rng.random() < 0.5
+            for epoch in range(4):
+                if mode == 'transient':
+                    now['bad'] = per_epoch[epoch]
+                ref = [(k, v) for k, v in twin.items()] if keyed else [(None, v) for v in twin]
+                want = [(k, v) for k, v in ref if v not in now['bad']]
+                try:
+                    got = [tuple(kv) for kv in ds.items()] if items_view else [(None, v) for v in ds]
+                except Exception as e:  # noqa
+                    got = repr(e)[:200]
+                if not items_view:
+                    want = [(None, v) for _, v in want]
+                if got != want:
+                    bad.append({'stage': name, 'mode': mode, 'n': n, 'keyed': keyed, 'items_view': items_view, 'seed': seed, 'epoch': epoch,
+                                'failing_in_this_epoch': sorted(now['bad']), 'failing_in_earlier_epochs': [sorted(b) for b in per_epoch[:epoch]] if mode == 'transient' else None,
+                                'delivered': repr(got), 'expected': repr(want)})
+                    break
+    return bad
+
+
 def run(rep):
     piperun.run(P(), rep)
+    ne = 150 if rep.tier == 'quick' else 3000
+    bad_e = epoch_cases(rep, ne)
+    rep.coverage['several_epochs_cases'] = ne
+    if bad_e:
+        rep.violation({'property': 'C14', 'kind': 'oracle-failure', 'clause': 'failing_examples_of_this_epoch', 'case': bad_e[0]})
     nl = 150 if rep.tier == 'quick' else 3000
     bad_l = lookup_error_cases(rep, nl)
     rep.coverage['lookup_error_cases'] = nl
@@ -154,7 +219,7 @@ def run(rep):
 
 
 def replay(j):
-    if j.get('clause') in ('three_filters_agree', 'lookup_error_from_an_example'):
+    if j.get('clause') in ('three_filters_agree', 'lookup_error_from_an_example', 'failing_examples_of_this_epoch'):
         print(j)
         return 1
     return piperun.replay(P(), j)
